@@ -104,7 +104,7 @@ def run(case, res):
         if m.get('rom'):
             continue
         got = sim.inspect_mem(b.mems[mi])
-        want = ref.mems[mi]
+        want = ref.mems[str(mi)]
         dv = init.get('default', 0)
         for a in set(got.keys()) | set(want.keys()):
             if got.get(a, dv) != want.get(a, dv):
